@@ -338,6 +338,43 @@ example : eq 3 (.struct [7,0,0,0,0,0,0,0, 0,0,0,0,0,0,0,0] [.cap 1, .null])
     (.struct (truncData [7,0,0,0,0,0,0,0, 0,0,0,0,0,0,0,0]) (truncPtrs [.cap 1, .null])) = true :=
   trunc_preserves_value 2 _ _ 2 rfl (by decide)
 
+/-! ## shape of the canonical data section -/
+
+theorem wordsOf_len8 (d : List Nat) : ∀ w ∈ wordsOf d, w.length = 8 := by
+  intro w hw
+  simp only [wordsOf, List.mem_map, List.mem_range] at hw
+  obtain ⟨x, ⟨i, _, rfl⟩, rfl⟩ := hw
+  have : ((d.drop (8 * i)).take 8).length ≤ 8 := by simp [List.length_take]; omega
+  simp only [List.length_append, List.length_replicate]; omega
+
+theorem truncWords_subset (ws : List (List Nat)) : ∀ w ∈ truncWords ws, w ∈ ws := by
+  intro w hw
+  simp only [truncWords, List.mem_reverse] at hw
+  have := (List.dropWhile_sublist (fun w : List Nat => w.all (· == 0)) (l := ws.reverse)).subset hw
+  simpa using this
+
+theorem flatten_len8' (l : List (List Nat)) (h : ∀ w ∈ l, w.length = 8) : l.flatten.length = 8 * l.length := by
+  induction l with
+  | nil => rfl
+  | cons w l ih =>
+    simp only [List.flatten_cons, List.length_append, List.length_cons]
+    rw [h w (by simp), ih (fun x hx => h x (by simp [hx]))]; omega
+
+/-- **the canonical data section is whole words**, for every data section (also the 1/2/4-byte sections of
+    primitive-list elements viewed as structs) -/
+theorem truncData_whole_words (d : List Nat) : (truncData d).length % 8 = 0 := by
+  rw [truncData_eq, flatten_len8' _ (fun w hw => wordsOf_len8 d w (truncWords_subset _ w hw))]; omega
+
+/-- … and never longer than the section rounded up to whole words -/
+theorem truncData_length_le (d : List Nat) : (truncData d).length ≤ (d.length + 7) / 8 * 8 := by
+  rw [truncData_eq, flatten_len8' _ (fun w hw => wordsOf_len8 d w (truncWords_subset _ w hw))]
+  have h1 : (truncWords (wordsOf d)).length ≤ (wordsOf d).length := by
+    simp only [truncWords, List.length_reverse]
+    have := (List.dropWhile_sublist (fun w : List Nat => w.all (· == 0)) (l := (wordsOf d).reverse)).length_le
+    simpa using this
+  have h2 : (wordsOf d).length = (d.length + 7) / 8 := by simp [wordsOf]
+  omega
+
 -- non-vacuity
 example : canon (.struct [] [.cap 3]) = none := by simp [canon, canonPtr, truncData, truncPtrs, isNullV, canonPtrs]
 
